@@ -96,7 +96,7 @@ def random_case(rng, side):
             total += u
     if side == "server":
         cls = "empty" if total == 0 else rng.choice(["doc", "doc", "doc", "docws", "trailing", "truncated", "malformed",
-                                                     "unknown", "wrongtype"])
+                                                     "unknown", "wrongtype", "otherenc"])
         kind = rng.choice(["std", "std", "optional"])
         ct = rng.choice(["exact", "exact", "exact", "params", "other", "near", "wildcard", "garbage", "absent"])
         limit = -1 if kind == "optional" else rng.choice([-1, total - 1, total, total + 1])
@@ -118,7 +118,9 @@ BAG = {"d": 1.5, "od": 2.5, "ld": [1.5], "md": {"k": 1.5}, "kd": {"1.5": "x"}, "
 GEN_RET = {   # return class -> [(endpoint, call arguments, what the handler returns, doc, doc with unknown field, doc of another type, malformed)]
     "unit": [("unit", {"body": "x"}, None, b'{"x":[1,"a"]}', b'{"x":1}', b'"text"', b'{"x":}')],
     "value": [("jsonBody", {"body": BAG}, {"d": 2.5}, b'{"d":2.5}', b'{"d":2.5,"zz":1}', b'"str"', b'{"d":2.5,,}'),
-              ("limited", {"body": "b"}, "text", b'"text"', b'"text"', b'12', b'"te\\qxt"')],
+              ("limited", {"body": "b"}, "text", b'"text"', b'"text"', b'12', b'"te\\qxt"'),
+              # macro clients (conjure_client + ConjureResponseDeserializer): an Option return, where `null` is a document
+              ("optRet", {}, "x", b'"text"', b'"text"', b'12', b'"te\\qxt"'), ("optRet", {}, None, b'null', b'null', b'[1]', b'nul')],
     "default": [("listReturn", {"n": 1}, ["a"], b'["a","b"]', b'["a","b"]', b'{"a":1}', b'["a",,"b"]'),
                 ("optBody", {"body": None}, {"a": 2}, b'{"a":2}', b'{"a":2,"zz":[]}', b'"s"', b'{"a":2,,}')],
     "binary": [("binaryBody", {"body": [1]}, [1, 2, 3], b"\x01\x02\x03", b"\x01\x02\x03", b"\x01\x02\x03", b"\x01\x02\x03")],
@@ -145,6 +147,8 @@ def gen_body(cls, doc, unknown, wrong, k, malformed=None):
         return unknown
     if cls == "wrongtype":
         return wrong
+    if cls == "otherenc":
+        return b":)\n\x01\xfa\x80d$\x05\xfb"        # a Smile document under a JSON Content-Type
     raise vc.ToolError(cls)
 
 
@@ -186,7 +190,8 @@ def generated_clients_stage(out, cases, seed, tier, nontrivial):
             muts = [{"op": "resp_status", "status": par["status"]}, {"op": "resp_ctype", "value": GEN_CT[par["ct"]]}, {"op": "resp_chunks", "chunks": chunks}]
             if fail_at is not None:
                 muts.append({"op": "resp_fail_at", "index": fail_at})
-            for client in (["gen-blocking", "gen-async"] if tier == "thorough" else [["gen-blocking", "gen-async"][k % 2]]):
+            flav = ["macro-blocking", "macro-async"] if endpoint == "optRet" else ["gen-blocking", "gen-async"]
+            for client in (flav if tier == "thorough" else [flav[k % 2]]):
                 cid = "g%d" % k
                 k += 1
                 d = {"id": cid, "endpoint": endpoint, "args": args, "ret": ret, "client": client, "server": client, "mutations": muts, "smile": False, "chunk": 1}
